@@ -159,6 +159,10 @@ func closedByCallee[T any](ch chan T) (was bool) {
 // drainPause: set by a harness for the duration of a case to make the consumers of lookup results slow (simulated time).
 var drainPause time.Duration
 
+// drainPausePlain: the pause also applies outside the scheduler (a harness that runs its sequential history in a plain
+// synctest bubble).
+var drainPausePlain bool
+
 func runLookup[T any](capacity int, onReturn func(), key func(T) string, isNil func(T) bool, call func(ch chan T) error) *lookupResult {
 	res := &lookupResult{}
 	done := make(chan struct{})
@@ -166,7 +170,7 @@ func runLookup[T any](capacity int, onReturn func(), key func(T) string, isNil f
 	drain := func() {
 		n := 0
 		for x := range ch {
-			if drainPause > 0 && n < 2 && sim.Active() {
+			if drainPause > 0 && n < 2 && (sim.Active() || drainPausePlain) {
 				time.Sleep(drainPause) // a consumer that is slow in simulated time (the lookup holds its read lock meanwhile)
 			}
 			n++
